@@ -12,6 +12,8 @@ imported or run; the tree that is walked is the syntax tree of the function unde
 """
 from __future__ import annotations
 
+from fractions import Fraction
+
 import ast
 from typing import Any, Callable, Dict, List, Optional, Sequence
 
@@ -581,6 +583,28 @@ class Evaluator(Folder):
                 getattr(recv, m)(*[self.fold(a) for a in e.args])
                 return
             if (dotted(e.func) or "").startswith("_logger.") or (dotted(e.func) or "").startswith("logging."):
+                return
+        if isinstance(e, ast.Call) and isinstance(e.func, ast.Attribute) and e.func.attr == "sort" and not e.args and e.keywords and all(k.arg in ("key", "reverse") for k in e.keywords):
+            # xs.sort(key=f, reverse=b): in place; the keys are computed by the evaluated callable and compared as Python
+            # compares them (a comparison Python refuses - int < None - is the TypeError the evaluated program would see)
+            recv = self.fold(e.func.value)
+            if isinstance(recv, list):
+                from .fold import call_value
+
+                kw = {k.arg: self.fold(k.value) for k in e.keywords}
+                keyf = kw.get("key")
+                keys = [x if keyf is None else call_value(self, keyf, [x]) for x in recv]
+
+                def plain(v: Any) -> bool:
+                    return v is None or (not isinstance(v, Abstract) and isinstance(v, (int, str, float, bool, Fraction, bytes))) or (isinstance(v, (tuple, list)) and all(plain(y) for y in v))
+
+                if not all(plain(k_) for k_ in keys):
+                    raise Unfoldable("sort keys that are not plain values: " + unparse(e))
+                try:
+                    order = sorted(range(len(recv)), key=lambda i_: keys[i_], reverse=bool(kw.get("reverse", False)))
+                except TypeError:
+                    raise Raised("TypeError", e)
+                recv[:] = [recv[i_] for i_ in order]
                 return
         if isinstance(e, ast.Call) and (dotted(e.func) or "").split(".")[0] in ("_logger", "logging", "warnings"):
             return
